@@ -149,7 +149,7 @@ def run(ctx):
                                        "canonical": repr(ref)[:300]})
         return ref
 
-    rounds = 40 if ctx.thorough else 8
+    rounds = 120 if ctx.thorough else 8
     for it in range(rounds):
         l1, l2 = rng.randint(1, 7), rng.randint(1, 7)
         v1 = [rng.randint(-3, 3) + rng.choice([0.0, 0.5]) for _ in range(l1)]
